@@ -95,6 +95,7 @@ func (fc *FnCtx) instr(in ssa.Instruction, idx int) {
 	case *ssa.Defer:
 		fc.defers = append(fc.defers, x)
 	case *ssa.Go:
+		fc.callSiteClausesCommon(x.Common(), x.Pos())
 		// the goroutine body runs concurrently: everything it may touch is unknown from here on
 		for h := range fc.callMods(x.Common()) {
 			if h == "*" {
@@ -1160,11 +1161,15 @@ func (fc *FnCtx) arith(t types.Type, m string, x *ssa.BinOp) string {
 }
 
 // callSiteClauses: `callsite "F" expr` obligations, checked in the state just before each call to F.
-func (fc *FnCtx) callSiteClauses(c *ssa.Call) {
+func (fc *FnCtx) callSiteClauses(c *ssa.Call) { fc.callSiteClausesCommon(&c.Call, c.Pos()) }
+
+// (a `go f(args)` statement is a call site of f as far as call-site clauses go: which function is started, and on
+// what arguments, is decided where the statement stands)
+func (fc *FnCtx) callSiteClausesCommon(cc *ssa.CallCommon, pos token.Pos) {
 	if fc.con == nil || len(fc.con.CallSites) == 0 {
 		return
 	}
-	names := callName(c)
+	names := callNameCommon(cc)
 	for i := range fc.con.CallSites {
 		cs := &fc.con.CallSites[i]
 		match := false
@@ -1181,12 +1186,12 @@ func (fc *FnCtx) callSiteClauses(c *ssa.Call) {
 		}
 		fc.callSiteSeen[cs.Anchor] = true
 		base := fc.pointEnv(fc.curBlock)
-		args := c.Call.Args
+		args := cc.Args
 		env := *base
 		inner := base.lookup
 		env.lookup = func(name string) (Val, bool) {
-			if name == "recv" && c.Call.IsInvoke() {
-				return fc.val(c.Call.Value), true // the interface value a method is invoked on
+			if name == "recv" && cc.IsInvoke() {
+				return fc.val(cc.Value), true // the interface value a method is invoked on
 			}
 			if strings.HasPrefix(name, "arg") {
 				var k int
@@ -1197,7 +1202,7 @@ func (fc *FnCtx) callSiteClauses(c *ssa.Call) {
 			return inner(name)
 		}
 		f := fc.evalBool(cs.C.E, &env)
-		fc.oblige("callsite", cs.C.Label, f, c.Pos(), &cs.C)
+		fc.oblige("callsite", cs.C.Label, f, pos, &cs.C)
 	}
 }
 
